@@ -35,9 +35,12 @@ def main():
             env = dict(os.environ, VERIF_REPO=wt)
             p = subprocess.run([os.path.join(ROOT, 'check'), pid, '--tier', 'quick'], cwd=ROOT, env=env, capture_output=True, text=True, timeout=3600)
             lines = [l for l in p.stdout.split('\n') if l.startswith('VIOLATION') or l.startswith('OK ') or l.startswith('KNOWN-FINDING')]
+            if os.path.exists(rp):
+                results = json.load(open(rp))
             results[name] = {'property': pid, 'exit': p.returncode, 'caught': p.returncode == 1 and any(l.startswith('VIOLATION') for l in lines),
                              'lines': lines[:4], 'detail': [l for l in p.stderr.split('\n') if l.strip()][:3]}
-            print(name, pid, 'CAUGHT' if results[name]['caught'] else 'MISSED', lines[:2])
+            json.dump(results, open(rp, 'w'), indent=1, sort_keys=True)
+            print(name, pid, 'CAUGHT' if results[name]['caught'] else 'MISSED', lines[:2], flush=True)
         finally:
             subprocess.call(['git', '-C', '/repo', 'worktree', 'remove', '--force', wt])
             tag_dirs = [os.path.join(ROOT, '.cache', 'target_alt'), os.path.join(ROOT, '.cache', 'harness_alt')]
